@@ -116,6 +116,7 @@ pub fn run_check(chk: Check, tier: Tier, seed: u64) -> i32 {
     let mut transitions = 0;
     let mut nontrivial = 0;
     let mut validated = 0;
+    let mut probe_execs = 0;
     let mut exhaustive = true;
     let mut counters: BTreeMap<String, u64> = BTreeMap::new();
     let mut samples: Vec<Value> = vec![];
@@ -128,6 +129,7 @@ pub fn run_check(chk: Check, tier: Tier, seed: u64) -> i32 {
         transitions += r.transitions;
         nontrivial += r.nontrivial;
         validated += r.validated;
+        probe_execs += r.probe_execs;
         exhaustive &= r.exhaustive;
         for (k, v) in &r.counters {
             *counters.entry(k.clone()).or_insert(0) += v;
@@ -196,7 +198,8 @@ pub fn run_check(chk: Check, tier: Tier, seed: u64) -> i32 {
             "states": states,
             "transitions": transitions,
             "traces_validated_against_impl": validated,
-            "evaluations": transitions,
+            "evaluations": transitions + probe_execs,
+            "probe_executions_on_clones": probe_execs,
             "distinct_nontrivial": nontrivial,
             "rule": chk.rule,
             "samples": samples,
